@@ -178,10 +178,26 @@ def _main_facts(tree):
         raise Unrecognised("main: fields sorted after make_dataclass")
     need("function_args = parsing.parse(FunctionArgs, dest='args', add_config_path_arg=False, **sp_kwargs)")
     need("args, kwargs = ([], {})")
-    need("for field in dataclasses.fields(function_args):\n    value = getattr(function_args, field.name)\n"
-         "    if field.metadata.get('positional', False):\n        args.append(value)\n    else:\n"
-         "        kwargs.update({field.name: value})")
-    need("positionals = (*args, *other_args)")
+    loops2 = [x for x in body if isinstance(x, ast.For) and unparse(x.iter) == "dataclasses.fields(function_args)"]
+    if len(loops2) != 1 or unparse(loops2[0].target) != "field" or loops2[0].orelse:
+        raise Unrecognised("main: loop over dataclasses.fields(function_args)")
+    l2 = clean(loops2[0].body)
+    if len(l2) != 2 or unparse(l2[0]) != "value = getattr(function_args, field.name)" or not isinstance(l2[1], ast.If):
+        raise Unrecognised("main: argument assembly loop changed")
+    t = l2[1].test
+    if not (isinstance(t, ast.Call) and unparse(t.func) == "field.metadata.get" and len(t.args) == 2 and not t.keywords
+            and isinstance(t.args[0], ast.Constant) and isinstance(t.args[0].value, str) and unparse(t.args[1]) == "False"):
+        raise Unrecognised(f"main: positional test {unparse(t)}")
+    main_pos_key = t.args[0].value
+    if [unparse(x) for x in clean(l2[1].body)] != ["args.append(value)"] \
+            or [unparse(x) for x in clean(l2[1].orelse)] != ["kwargs.update({field.name: value})"]:
+        raise Unrecognised("main: positional / keyword arms of the assembly loop changed")
+    if "positionals = (*args, *other_args)" in texts:
+        parsed_pos_first = True
+    elif "positionals = (*other_args, *args)" in texts:
+        parsed_pos_first = False
+    else:
+        raise Unrecognised("main: positionals = (..)")
     if "keywords = collections.ChainMap(kwargs, other_kwargs)" in texts:
         parsed_wins = True
     elif "keywords = collections.ChainMap(other_kwargs, kwargs)" in texts:
@@ -190,7 +206,13 @@ def _main_facts(tree):
         raise Unrecognised("main: keywords = collections.ChainMap(..)")
     if texts[-1] != "return function(*positionals, **keywords)":
         raise Unrecognised(f"main: final call {texts[-1]}")
-    return kwargs, pos_kinds, is_sorted, parsed_wins, main_copied
+    # ---- the tail of main itself: bare decorator / decorator factory
+    tail = [unparse(x) for x in clean(main.body)][-2:]
+    if tail != ["if original_function:\n    return _decorate_with_cli_args(original_function)", "return _decorate_with_cli_args"]:
+        raise Unrecognised("main: tail changed: " + " | ".join(tail)[:200])
+    if [unparse(x) for x in clean(deco.body)][-1] != "return _wrapper":
+        raise Unrecognised("main: _decorate_with_cli_args does not return _wrapper")
+    return kwargs, pos_kinds, is_sorted, parsed_wins, main_copied, main_pos_key, parsed_pos_first
 
 
 def _field_named(tree):
@@ -202,7 +224,26 @@ def _field_named(tree):
     texts = [unparse(s) for s in ast.walk(fn) if isinstance(s, ast.stmt)]
     if not any(t.startswith("if custom_argparse_args:\n    _metadata.update({'custom_args': custom_argparse_args})") for t in texts):
         raise Unrecognised("helpers.field: custom_args metadata")
-    return named
+    keys = []
+    for n in ast.walk(fn):
+        if isinstance(n, ast.Assign) and len(n.targets) == 1 and isinstance(n.targets[0], ast.Subscript) \
+                and unparse(n.targets[0].value) == "_metadata" and isinstance(n.value, ast.Name) and n.value.id == "positional":
+            k = n.targets[0].slice
+            if not (isinstance(k, ast.Constant) and isinstance(k.value, str)):
+                raise Unrecognised("helpers.field: positional metadata key")
+            keys.append(k.value)
+    if len(keys) > 1:
+        raise Unrecognised("helpers.field: positional stored twice")
+    field_pos_key = keys[0] if keys else ""
+    # the three-way return: default -> dataclasses.field(default=default, ..), factory -> (default_factory=..), neither
+    last = clean(fn.body)[-1]
+    want = ("if default is not MISSING:\n    return dataclasses.field(default=default, init=init, repr=repr, hash=hash, compare=compare, "
+            "metadata=_metadata)\nelif not isinstance(default_factory, dataclasses._MISSING_TYPE):\n    return dataclasses.field("
+            "default_factory=default_factory, init=init, repr=repr, hash=hash, compare=compare, metadata=_metadata)\nelse:\n"
+            "    return dataclasses.field(init=init, repr=repr, hash=hash, compare=compare, metadata=_metadata)")
+    if unparse(last) != want:
+        raise Unrecognised("helpers.field: default / default_factory flow changed: " + unparse(last)[:300])
+    return named, field_pos_key
 
 
 def _bool_action_params(tree):
@@ -296,10 +337,18 @@ def _config_for_facts(tree):
             raise Unrecognised("_cache_when_possible body changed: " + " | ".join(got)[:400])
     body = clean(fn.body)
     texts = [unparse(s) for s in body]
-    for t in ("if isinstance(ignore_args, str):\n    ignore_args = (ignore_args,)\nelse:\n    ignore_args = tuple(ignore_args)",
-              "signature = inspect.signature(cls)", "fields: list[tuple[str, type, dataclasses.Field]] = []",
+    if "if isinstance(ignore_args, str):\n    ignore_args = (ignore_args,)\nelse:\n    ignore_args = tuple(ignore_args)" in texts:
+        str_single = True
+    elif "ignore_args = tuple(ignore_args)" in texts:
+        str_single = False      # a str is then taken apart into its characters
+    else:
+        raise Unrecognised("config_for: ignore_args normalisation")
+    target_set = "config_class._target_ = cls" in texts
+    if not target_set and any("_target_" in t for t in texts):
+        raise Unrecognised("config_for: _target_ assigned in an unrecognised way")
+    for t in ("signature = inspect.signature(cls)", "fields: list[tuple[str, type, dataclasses.Field]] = []",
               "config_class = make_dataclass(cls_name=cls_name, bases=(Partial,), fields=fields, frozen=frozen)",
-              "config_class._target_ = cls", "return config_class"):
+              "class_annotations = get_type_hints(cls)", "return config_class"):
         if t not in texts:
             raise Unrecognised(f"config_for: `{t}` not found")
     loops = [s for s in body if isinstance(s, ast.For) and unparse(s.iter) == "signature.parameters.items()"]
@@ -322,12 +371,22 @@ def _config_for_facts(tree):
         lb_rest = lb[3:]
         if any("ignore_args" in t for t in rest):
             raise Unrecognised("config_for: ignore_args used in an unrecognised way")
-    type_chain = ("if parameter.annotation is not inspect.Parameter.empty:\n    field_type = parameter.annotation\n"
-                  "elif name in class_annotations:\n    field_type = class_annotations[name]\n"
-                  "elif default is not dataclasses.MISSING:\n    field_type = infer_type_annotation_from_default(default)\n"
-                  "else:\n    continue")
-    if not rest or rest[0] != type_chain:
-        raise Unrecognised("config_for: field type chain changed")
+    # where the field's type comes from: an if/elif chain, translated arm by arm (order = precedence)
+    sources = {"parameter.annotation is not inspect.Parameter.empty": ("SrcParam", "field_type = parameter.annotation"),
+               "name in class_annotations": ("SrcClass", "field_type = class_annotations[name]"),
+               "default is not dataclasses.MISSING": ("SrcInfer", "field_type = infer_type_annotation_from_default(default)")}
+    chain_stmt = lb_rest[0] if lb_rest else None
+    if not isinstance(chain_stmt, ast.If):
+        raise Unrecognised("config_for: field type chain not found")
+    arms, els = if_chain(chain_stmt)
+    type_chain = []
+    for test, arm_body in arms:
+        src = sources.get(unparse(test))
+        if src is None or [unparse(x) for x in arm_body] != [src[1]] or src[0] in type_chain:
+            raise Unrecognised(f"config_for: field type chain arm `{unparse(test)}`")
+        type_chain.append(src[0])
+    if [unparse(x) for x in els] != ["continue"]:
+        raise Unrecognised("config_for: a parameter without any type source is no longer skipped")
     last = lb_rest[-1]
     if not (isinstance(last, ast.If) and unparse(last.test) == "default is dataclasses.MISSING" and len(last.orelse) >= 1):
         raise Unrecognised("config_for: required/optional split")
@@ -391,7 +450,20 @@ def _config_for_facts(tree):
     got = [unparse(x) for x in clean(gi.body)]
     if [a.arg for a in gi.args.args] != ["cls", "target"] or got != want:
         raise Unrecognised("_Partial.__getitem__ body changed: " + " | ".join(got)[:400])
-    return cf_copied, cached, skips, [k for k, _ in req_kws], [k for k, _ in opt_kws], req_where == "front", call_site_wins
+    # ---- small helpers the model takes for granted
+    ad = find_def(tree, "adjust_default")
+    if [unparse(d) for d in ad.decorator_list] != ["singledispatch"] or [unparse(x) for x in clean(ad.body)] != ["return default"]:
+        raise Unrecognised("adjust_default is no longer the identity by default")
+    pn = find_def(tree, "__new__", cls="Partial")
+    if [unparse(x) for x in clean(pn.body)] != ["_func = __func or cls._target_", "assert _func is not None",
+                                                 "return super().__new__(cls, _func, *args, **kwargs)"]:
+        raise Unrecognised("Partial.__new__ body changed")
+    gn = find_def(tree, "_get_generated_config_class_name")
+    if [unparse(x) for x in clean(gn.body)] != ["if inspect.isclass(target):\n    return target.__name__ + 'Config'\n"
+                                                "elif inspect.isfunction(target):\n    return target.__name__ + '_config'",
+                                                "raise NotImplementedError(target)"]:
+        raise Unrecognised("_get_generated_config_class_name body changed")
+    return str_single, target_set, type_chain, cf_copied, cached, skips, [k for k, _ in req_kws], [k for k, _ in opt_kws], req_where == "front", call_site_wins
 
 
 BTY = {"int": "TInt", "str": "TStr", "float": "TFloat", "bool": "TBool"}
@@ -444,15 +516,21 @@ def emit(repo: str) -> str:
     ca = _strip_logs(parse(repo, "simple_parsing/helpers/custom_actions.py"))
     fw = _strip_logs(parse(repo, "simple_parsing/wrappers/field_wrapper.py"))
     partial = _strip_logs(parse(repo, "simple_parsing/helpers/partial.py"))
-    main_kwargs, pos_kinds, is_sorted, parsed_wins, main_copied = _main_facts(deco)
-    named = _field_named(fields)
+    main_kwargs, pos_kinds, is_sorted, parsed_wins, main_copied, main_pos_key, parsed_pos_first = _main_facts(deco)
+    named, field_pos_key = _field_named(fields)
     bool_params = _bool_action_params(ca)
     _check_field_wrapper(fw)
-    cf_copied, cached, skips, req_kws, opt_kws, req_front, call_site_wins = _config_for_facts(partial)
+    str_single, target_set, type_chain, cf_copied, cached, skips, req_kws, opt_kws, req_front, call_site_wins = _config_for_facts(partial)
     infer_rule = _infer_rule(partial)
     return (
         "From SPV Require Import Base.Str Model.Front.\nOpen Scope string_scope.\n"
         "Definition facts_gen : facts := {|\n"
+        f"  f_field_pos_key := {cstrs([field_pos_key])[1:-1]};\n"
+        f"  f_main_pos_key := {cstrs([main_pos_key])[1:-1]};\n"
+        f"  f_main_parsed_pos_first := {_b(parsed_pos_first)};\n"
+        f"  f_cf_type_chain := [{'; '.join(type_chain)}];\n"
+        f"  f_cf_str_single := {_b(str_single)};\n"
+        f"  f_cf_target_set := {_b(target_set)};\n"
         f"  f_main_copied := [{'; '.join(main_copied)}];\n"
         f"  f_cf_copied := [{'; '.join(cf_copied)}];\n"
         f"  f_infer := {infer_rule};\n"
